@@ -295,6 +295,39 @@ def observe(src, wd):
     return obs
 
 
+def observe_edit(src, wd, rnd):
+    """a model that ran is edited through the API (the producer of a result that other commands use is removed) and run again:
+    the edited model is ill-formed and must be rejected before anything executes or is written"""
+    try:
+        p = Program.from_source(src, libraries=LIBS, working_dir=wd)
+        p.run()
+    except BaseException:
+        return None
+
+    def names(v):
+        if isinstance(v, (list, tuple)):
+            return [x for y in v for x in names(y)]
+        v = getattr(v, "value", v)
+        return [getattr(v, "result_name", v)] if isinstance(getattr(v, "result_name", v), str) else []
+    used = sorted(set(x for c in p.commands.values() for a in c.arguments if a.name != "Metadata" for x in names(a.value) if x in p.commands and x != c.result_name))
+    if not used:
+        return None
+    victim = rnd.choice(used)
+    del p.commands[victim]
+    del LOG[:]
+    before = listing(wd)
+    obs = {"victim": victim, "cls": None}
+    try:
+        p.run()
+    except MPilotError as ex:
+        obs["cls"] = type(ex).__name__
+    except BaseException as ex:
+        obs["cls"] = "ESCAPED:" + type(ex).__name__
+    obs["executed"] = list(LOG)
+    obs["new_files"] = [f for f in listing(wd) if f not in before]
+    return obs
+
+
 def parsed_nodes(src):
     pn = Parser().parse(src)
     out = []
@@ -428,6 +461,18 @@ def main():
         with open(os.path.join(wd, "data.csv"), "w") as fh:
             fh.write(extra.get("csv", base_csv))
         obs = observe(src, wd)
+        if kind == "valid-model" and obs["cls"] is None and prop == "C12" and rnd.random() < 0.5:
+            eo = observe_edit(src, wd, rnd)
+            for f in sorted(listing(wd), key=len, reverse=True):
+                if f not in ("d.csv", "data.csv"):
+                    (os.rmdir if f.endswith("/") else os.remove)(os.path.join(wd, f))
+            if eo is not None:
+                dist["models_edited_after_a_run"] = dist.get("models_edited_after_a_run", 0) + 1
+                evaluations += 1
+                if eo["cls"] != "ResultDoesNotExist" or eo["executed"] or eo["new_files"]:
+                    fails.append({"sig": "C12:edited-model-not-rejected", "what": "after a successful run the command %s, which other commands use, was removed with `del program.commands[%r]`; running the edited model gave %s, executed %r, wrote %r (expected: ResultDoesNotExist before anything runs)" % (
+                        eo["victim"], eo["victim"], eo["cls"] or "no error", eo["executed"][:5], eo["new_files"]),
+                        "replay": {"source": src, "csv": extra.get("csv", base_csv), "history": ["run()", "del program.commands[%r]" % eo["victim"], "run()"]}})
         evaluations += 1
         key = obs["cls"] or "ok"
         dist["outcomes"][key] = dist["outcomes"].get(key, 0) + 1
@@ -473,6 +518,42 @@ def main():
                     descr.append(dict(replay, observed=what))
             except Exception:
                 dist["unprintable"] += 1
+    # ---------- C13: models built in code whose references are Command objects of ANOTHER program (shared readers) ----------
+    if prop == "C13":
+        dist["api_models_with_foreign_commands"] = 0
+        lib_csv = Program(libraries=LIBS).command_library
+        with open(os.path.join(wd, "data.csv"), "w") as fh:
+            fh.write(base_csv)
+        for k in range(max(6, n // 40)):
+            try:
+                p1 = Program.from_source("A = EEMSRead(InFileName = data.csv, InFieldName = a)\nB = EEMSRead(InFileName = data.csv, InFieldName = b)", libraries=LIBS, working_dir=wd)
+                shape = rnd.choice(["direct", "list", "mixed", "missing-name"])
+                p2 = Program(libraries=LIBS, working_dir=wd)
+                if shape == "direct":
+                    p2.add_command(lib_csv["Copy"], "X", {"InFieldName": p1.commands["A"]})
+                elif shape == "list":
+                    p2.add_command(lib_csv["Sum"], "X", {"InFieldNames": [p1.commands["A"], p1.commands["B"]]})
+                elif shape == "mixed":
+                    p2.add_command(lib_csv["EEMSRead"], "C", {"InFileName": "data.csv", "InFieldName": "a"})
+                    p2.add_command(lib_csv["Sum"], "X", {"InFieldNames": ["C", p1.commands["B"]]})
+                else:
+                    p2.add_command(lib_csv["Sum"], "X", {"InFieldNames": [p1.commands["A"], "NoSuch"]})
+                if rnd.random() < 0.5:
+                    p2.add_command(lib_csv["Copy"], "Y", {"InFieldName": "X"})
+                esc = None
+                try:
+                    p2.run()
+                except MPilotError:
+                    pass
+                except BaseException as ex:
+                    esc = ex
+                evaluations += 1
+                dist["api_models_with_foreign_commands"] += 1
+                if esc is not None:
+                    fails.append({"sig": "C13:escape:%s" % type(esc).__name__, "what": "running a model built with add_command whose argument is a Command object of another program (%s) let %s escape: %s" % (shape, type(esc).__name__, str(esc)[:120]),
+                                  "replay": {"built": "Program.add_command", "shape": shape, "note": "A and B are EEMSRead commands of another Program object"}})
+            except MPilotError:
+                pass
     # ---------- C13: the command-line tool ----------
     if prop == "C13":
         cli = "/venv/bin/mpilot"
